@@ -5,6 +5,7 @@ import Ruint.Gen.AddmulN
 import Ruint.Lemmas.GenCore
 import Ruint.Lemmas.GenKernels
 import Ruint.Lemmas.GenCmp
+import Ruint.Lemmas.GenAddmul
 
 /-!
 # C15 — limb-slice multiply, accumulate, add, subtract, shift, compare kernels are exact
@@ -400,5 +401,15 @@ example : Limb.cmp [5] [3, 0] = .gt := by decide +kernel
 theorem gen_cmp_eq (l r : List ℕ) (h64 : min l.length r.length < 2 ^ 64) (f : ℕ) (hf : min l.length r.length < f) :
     Ruint.Gen.limb_cmp f l r = Ruint.Limb.cmp l r :=
   Ruint.GenCmp.limb_cmp_eq' l r h64 f hf
+
+/-- **`algorithms::addmul` as generated from `src/algorithms/mul.rs`** — the four `while let` trimming loops with their slice
+    patterns, the re-borrowing of `lhs` (`lhs = rest`, `lhs = &mut lhs[1..]`: translated as a window plus the limbs already
+    in front of it), the operand swap, the `for &b in b` loop with `split_at_mut`, the short-window arm and its `break`, over
+    the generated `addmul_nx1` / `add_nx1` — equals the model for ALL slice lengths on word limbs; the driver runs it. -/
+theorem gen_addmul_eq (lhs a b : List ℕ) (hwl : AllLt lhs) (hwa : AllLt a) (hwb : AllLt b)
+    (hl64 : lhs.length < 2 ^ 64) (ha64 : a.length < 2 ^ 64) (hb64 : b.length < 2 ^ 64)
+    (fuel : ℕ) (hf : lhs.length + a.length + b.length < fuel) :
+    Ruint.Gen.addmul fuel lhs a b = addmul W lhs a b :=
+  Ruint.GenAddmul.addmul_eq lhs a b hwl hwa hwb hl64 ha64 hb64 fuel hf
 
 end Ruint.C15
